@@ -41,6 +41,10 @@ KwAt(s, i, kw) == i + Len(kw) - 1 <= Len(s) /\ LowerSeq(SubSeq(s, i, i + Len(kw)
 RECURSIVE RunEnd(_, _)
 RunEnd(s, i) == IF i <= Len(s) /\ s[i] \in Digit THEN RunEnd(s, i + 1) ELSE i - 1
 
+\* the version order is specified for digit runs of at most 18 digits (C01); longer runs
+\* saturate in the code and are judged only by the order laws (C03) and totality (C17)
+LongRun(s) == \E i \in 1..(Len(s) - 18) : \A j \in i..(i + 18) : s[j] \in Digit
+
 (***************************************************************************)
 (* The tokeniser: the property's rule table, one branch per rule.          *)
 (* TokStep gives the rule that fires at position i and its effect; the     *)
